@@ -2,5 +2,5 @@ INIT Init
 NEXT Next
 CONSTANT Family = "R"
 CONSTANT Tier = "thorough"
-CONSTANT N = 100000
+CONSTANT N = 30000
 INVARIANT CheckAndEmit
